@@ -431,6 +431,10 @@ func (c *c03) deriveArg(h *HandlerInfo, res *resolver, a ast.Expr) string {
 	}
 	if id, ok := unparen(inner).(*ast.Ident); ok {
 		if v, ok := objOf(info, id).(*types.Var); ok && paramIndex(h.Fi, info, v) >= 0 {
+			// the uid handed to the Tu* wrappers' do methods is recognised by its type
+			if strings.HasSuffix(types.TypeString(v.Type(), nil), "p9.UID") {
+				return "param:uid"
+			}
 			return "param:" + id.Name
 		}
 		// a local clamped from a request field (count := t.Count; if count > max { count = max }):
@@ -859,14 +863,19 @@ func (c *c03) versionGating() {
 	// WalkGetAttr fallback
 	if fi := r.L.Func("p9", "clientFile.WalkGetAttr"); fi != nil {
 		okFB := false
+		recvN := "c"
+		if fi.Decl.Recv != nil && len(fi.Decl.Recv.List[0].Names) == 1 {
+			recvN = fi.Decl.Recv.List[0].Names[0].Name
+		}
+		gate := "versionSupportsTwalkgetattr(" + recvN + ".client.version)"
 		for _, s := range m.callsIn(fi, "p9.clientFile.Walk") {
-			if s.St.holds("versionSupportsTwalkgetattr(c.client.version)", false) {
+			if s.St.holds(gate, false) {
 				okFB = true
 			}
 		}
 		okGA := false
 		for _, s := range m.DB.ByFunc[fi] {
-			if s.Callee == "p9.File.GetAttr" && s.St.holds("versionSupportsTwalkgetattr(c.client.version)", false) {
+			if s.Callee == "p9.File.GetAttr" && s.St.holds(gate, false) {
 				okGA = true
 			}
 		}
